@@ -161,6 +161,18 @@ CHECKS["C17"] = dict(
          "the child are invisible here. One known finding (coordinate outlier with initial triangulation) is listed in known_findings.json.",
     technique="TLC-enumerated structured faults from the TLA+ format specs (VtkFaults, Params) + seeded token/byte faults, executed against the real start-up path in sandboxed child processes")
 
+CHECKS["C12"] = dict(
+    category="model_checking", design_ref="DESIGN.md §C12",
+    text="spec/Geom/LatticeGeom gives 6*volume, 2*area, 6*area*centroid and the bounding box of a lattice mesh as exact integers and the orientation repair "
+         "as the unique consistent outward re-winding; TLC checks, for every mix of input windings of tetrahedron / octahedron / bipyramid, that exactly one "
+         "re-winding is consistent and outward, and the invariance and k^3 / k^2 scaling laws under the 24 lattice rotations, translations and scalings. "
+         "Real initialize_cell_properties and the getters on seeds and triangulated boxes under rotations, translations up to 1000 cell sizes, scalings, three "
+         "physical units, node / face renumberings and winding mixes are validated by TLC (GeomTrace): exact volume, bounding box, area, centroid, every "
+         "triangle wound outward whatever the input winding, unit normals on the winding side, longest axis of boxes covariant under rotation.",
+    note="Exactness only on lattice meshes; area / centroid only on meshes with integer-length area vectors (boxes); far-origin cancellation (offset/size > 1e3) "
+         "is a floating-point effect outside this family's reach; longest axis only with a strictly longest side, up to sign.",
+    technique="TLA+ spec (LatticeGeom, exact integer geometry) model-checked by TLC + TLC validation (GeomTrace) of the real cell's reported geometry")
+
 PENDING = {}   # property id -> reason (filled below for everything not in CHECKS)
 NOT_APPLICABLE = {
  "C10": "memory safety / undefined behaviour has no representation in a TLA+ state (no addresses, lifetimes or indeterminate values); "
